@@ -59,8 +59,14 @@ theorem noop_keeps (p : Params) (b : Rat) : after p b .noop = b := rfl
 
 /-- every kind of failure escalates the same way -/
 theorem failures_escalate (p : Params) (b : Rat) :
-    after p b .backoffReq = incr p b ∧ after p b .exc = incr p b ∧ after p b .baseExc = incr p b :=
-  ⟨rfl, rfl, rfl⟩
+    after p b .backoffReq = incr p b ∧ after p b .exc = incr p b ∧ after p b .baseExc = incr p b ∧
+      after p b .noopThenFail = incr p b :=
+  ⟨rfl, rfl, rfl, rfl⟩
+
+/-- a call that reported "nothing happened" and then failed is a failure like any other: the no-op flag
+    does not outlive the call, so the next effective success clears the backoff -/
+theorem noop_flag_does_not_leak (p : Params) (b : Rat) (hb : 0 ≤ incr p b) :
+    after p (after p b .noopThenFail) .success = 0 := success_clears p _ hb
 
 /-- the loop keeps running whatever `do()` raises: one sleep is requested after every outcome -/
 theorem loop_survives_any_outcome (p : Params) (sleep b : Rat) (outs : List Outcome) :
